@@ -61,8 +61,11 @@ def run(scn, kind, loop):
     tag = [0]
 
     def patch_kwargs(op):
-        tag[0] += 1
-        t = tag[0]
+        if op.get('twin'):
+            t = 99               # identically configured patches: one shared value
+        else:
+            tag[0] += 1
+            t = tag[0]
         kw = {'once': op['once']}
         if op['kind'] == 'result':
             kw['result'] = 'res_%d' % t
